@@ -213,7 +213,11 @@ func c14Exec(t *testing.T, sc *gen.Scenario, trace bool) *harness.Outcome {
 					idWant = append(idWant, id)
 				}
 			}
-			sort.Strings(idSel)
+			// (the filter arrives in whatever order the access-control lookup produced it; the listing is by id)
+			for i := len(idSel) - 1; i > 0; i-- {
+				j := e.run.Pick(i+1, "idsel-order", i)
+				idSel[i], idSel[j] = idSel[j], idSel[i]
+			}
 			// ---- expected listings
 			var readWant []string
 			var tk *openfgav1.ReadRequestTupleKey
